@@ -78,6 +78,31 @@ CHECKS = {
         technique="exhaustive code enumeration + Hypothesis timing/configuration sampling on a virtual-clock loop",
         engine="vloop",
     ),
+    "C06": dict(
+        category="exploration",
+        text="2..4 tasks call execute() on one protocol object with generated start offsets; the peer tags every answer with "
+             "the requested register (same count: frames indistinguishable to the validator) and drops, delays or fragments "
+             "per transmission. Oracle: no transmission while another is still waiting for its answer, every caller gets the "
+             "payload of its own register, every caller terminates. All 2-caller schedules over an offset grid x 64 scripts are "
+             "enumerated; 3-4 callers sampled. Schedules are owned by the harness (virtual clock), so interleavings are inputs.",
+        design_ref="DESIGN.md section 4, C06",
+        note="Precondition of the property built into the generator (each transmission answered at most once, before its timeout; "
+             "fragments contain the header). Trusted: vlib/vloop.py.",
+        technique="schedule enumeration + Hypothesis over caller offsets and fault scripts on a virtual-clock loop",
+        engine="vloop",
+    ),
+    "C10": dict(
+        category="exploration",
+        text="Histories of requests (fault classes incl. transport-killing ones), close(), event-loop changes and waits on one "
+             "protocol object; the in-memory transports log every open/close. Oracle: never two transports open, none open after a "
+             "request with keep-alive off or after close(), the same transport reused by consecutive successful keep-alive "
+             "requests, and a promptly answered request succeeds after any history. Histories up to length 2 (quick) / 3 (thorough) "
+             "enumerated, longer ones generated by a Hypothesis rule-based state machine.",
+        design_ref="DESIGN.md section 4, C10",
+        note="Trusted: open/close accounting of vlib/vloop.py fake transports (transcribed from CPython 3.12 selector_events).",
+        technique="history enumeration + Hypothesis RuleBasedStateMachine on a virtual-clock loop with instrumented transports",
+        engine="vloop",
+    ),
 }
 
 def main():
